@@ -1,4 +1,5 @@
 import Properties.C18
+import Properties.C18b
 import FlowCalModel.GeneratedExpr
 /-!
 # C18 — the logicle function found in the source is the model's, hence strictly increasing with value 0 at `W`
@@ -15,5 +16,22 @@ theorem source_logicle_strictMono (T M W p : ℝ) (hT : 0 < T) (hp : 0 < p) : St
 
 theorem source_logicle_at_W (T M W p : ℝ) : GeneratedExpr.src_logicle T M W p W = 0 := by
   rw [source_logicle_eq]; exact logicle_at_W T M W p
+
+/-- the equation the source solves for `p` is the model's `Wf p = W` -/
+theorem source_Wf_eq {α : Type} [Add α] [Sub α] [Mul α] [Div α] [Neg α] [OfNat α 1] [OfNat α 2] [Pow10 α] (p : α) :
+    GeneratedExpr.src_W_f p = Wf p := rfl
+
+/-- **The bracket handed to the fallback solver in the source contains the solution** `p ≥ 1` of the source's equation,
+and that solution exists and is unique: the fallback cannot fail to find it, nor find another one. -/
+theorem source_bracket_contains_root (W p : ℝ) (hp : 1 ≤ p) (h : GeneratedExpr.src_W_f p = W)
+    (_hs : GeneratedExpr.src_p_solves_W_f_eq_W = true) :
+    GeneratedExpr.src_p_bracket_lo W ≤ p ∧ p ≤ GeneratedExpr.src_p_bracket_hi W := by
+  rw [source_Wf_eq] at h
+  have := p_bracket W p hp h
+  simpa [GeneratedExpr.src_p_bracket_lo, GeneratedExpr.src_p_bracket_hi, pow10_def] using this
+
+theorem source_root_exists_unique (W : ℝ) (hW : 0 ≤ W) : ∃! p : ℝ, 1 ≤ p ∧ GeneratedExpr.src_W_f p = W := by
+  have : ∀ p : ℝ, GeneratedExpr.src_W_f p = Wf p := fun p => rfl
+  simpa [this] using exists_unique_p W hW
 
 end FlowCal.C18
